@@ -127,12 +127,12 @@ func MapOrder(name string) {}
 `
 
 type Program struct {
-	Prog  *ssa.Program
-	Pkgs  []*packages.Package
-	Fset  *token.FileSet
-	Sizes types.Sizes
+	Prog   *ssa.Program
+	Pkgs   []*packages.Package
+	Fset   *token.FileSet
+	Sizes  types.Sizes
 	byPath map[string]*ssa.Package
-	LoadS float64
+	LoadS  float64
 }
 
 // Load builds SSA for the given repository packages with harness files overlaid.
@@ -185,14 +185,15 @@ func (p *Program) Func(pkgPath, name string) *ssa.Function {
 }
 
 type Options struct {
-	MaxPaths   int
-	MaxSteps   int
-	Workers    int
-	Timeout    time.Duration
-	DiffRate   int
-	Deadline   time.Duration
-	Trace      bool
-	KeepPaths  int
+	MaxPaths  int
+	MaxSteps  int
+	Workers   int
+	Timeout   time.Duration
+	DiffRate  int
+	Deadline  time.Duration
+	Trace     bool
+	KeepPaths int
+	Summarize []string // functions (ssa.Function.String()) summarised instead of inlined
 }
 
 // newInterp creates a fresh interpreter state (globals zeroed, no package initialised).
@@ -229,8 +230,10 @@ type runResult struct {
 }
 
 // runOnce executes the harness along one decision prefix.
-func (p *Program) runOnce(c *smt.Ctx, pr *smt.Prover, fn *ssa.Function, prefix []decision, opts Options) (res runResult) {
+func (p *Program) runOnce(w *Worker, fn *ssa.Function, prefix []decision, opts Options) (res runResult) {
+	c, pr := w.C, w.P
 	x := newExec(c, pr, prefix, opts.MaxSteps)
+	x.W = w
 	res.x = x
 	i := p.newInterp(x)
 	if opts.Trace {
@@ -267,6 +270,16 @@ func (p *Program) runOnce(c *smt.Ctx, pr *smt.Prover, fn *ssa.Function, prefix [
 			default:
 				res.engine = fmt.Sprintf("interpreter panic %T: %v %s", r, r, shortStack())
 			}
+		}
+	}()
+	defer func() {
+		// pending assertions are decided whenever the path ends, except when the path was cut by an
+		// unsatisfiable assumption
+		if !x.dead {
+			func() {
+				defer func() { recover() }()
+				x.Flush()
+			}()
 		}
 	}()
 	call(i, nil, token.NoPos, fn, nil)
@@ -327,9 +340,16 @@ func (p *Program) Explore(pkgPath, name string, opts Options) *Stats {
 		wg.Add(1)
 		go func() {
 			defer wg.Done()
-			c := smt.NewCtx()
-			pr := smt.NewProver(c, opts.Timeout, opts.DiffRate)
-			defer pr.Close()
+			newWorker := func() *Worker {
+				c := smt.NewCtx()
+				sm := map[string]bool{}
+				for _, n := range opts.Summarize {
+					sm[n] = true
+				}
+				return &Worker{C: c, P: smt.NewProver(c, opts.Timeout, opts.DiffRate), Summarize: sm, sums: map[string]*summary{}}
+			}
+			wk := newWorker()
+			defer func() { wk.P.Close() }()
 			runs := 0
 			for {
 				mu.Lock()
@@ -357,11 +377,10 @@ func (p *Program) Explore(pkgPath, name string, opts Options) *Stats {
 				runs++
 				if runs%400 == 0 {
 					// bound the memory of the hash-consing table
-					pr.Close()
-					c = smt.NewCtx()
-					pr = smt.NewProver(c, opts.Timeout, opts.DiffRate)
+					wk.P.Close()
+					wk = newWorker()
 				}
-				res := p.runOnce(c, pr, fn, prefix, opts)
+				res := p.runOnce(wk, fn, prefix, opts)
 
 				mu.Lock()
 				active--
